@@ -1,5 +1,6 @@
 import Ndt.Props.C04Complex
 import Ndt.Props.C12
+import Ndt.Props.C01Complex
 namespace Ndt
 open Ndt.Gen Complex
 
@@ -87,5 +88,24 @@ theorem hessMulticomplex_quadratic (ms : List (ℝ × List ℕ)) (x h : ℕ → 
 `LogHessianRule._complex_high_order = False`, regenerated from the source): its truncation error is `c₂ h² + c₄ h⁴ + …`, unlike the
 scalar complex-step rules for `n > 1`, which are built on `h⁴` -/
 theorem hessian_complex_not_high_order : hessianRuleComplexHighOrder = false := rfl
+
+/-- **Hessdiag, complex-step**: entry `k` is the `method='complex'`, `n = 2` pipeline (`_complex_even` along `_SQRT_J`) on the line
+function `t ↦ f(x + t e_k)`: exact when that function is a real polynomial of degree `< 2 + method_order` -/
+theorem hessdiag_exact_complex (ζ : ℂ) (hζ : ζ * ζ = I) (dc : Consts ℝ) (hE : 0 ≤ dc.eps) (sc : SelConsts ℝ)
+    (ρ : ℝ) (hρ : 1 < ρ) (order : ℕ) (ho : 1 ≤ order) (richardsonTerms : ℕ) (a : ℕ → ℝ) (h0 : ℝ) (hh : h0 ≠ 0) (N : ℕ) :
+    let r : LogRule := ⟨2, .complex, order⟩
+    let f := polyAtC a (2 + r.method_order) 0
+    let steps := (List.range N).map (fun s => h0 * (1 / ρ) ^ s)
+    ∃ d, diffName r = some d ∧
+      let derInit := fdApply ρ r (steps.map (fun h => complexQuotient ζ d f (a 0) 0 h)) steps
+      let rich := richCall ρ r.richardson_step r.method_order richardsonTerms derInit
+      ∀ errs stepTable, 0 < rich.length →
+        ∀ y ∈ (tailStage dc sc rich.length 1 rich errs stepTable).value, y = 2 * a 2 := by
+  intro r f steps
+  obtain ⟨d, hd, hex⟩ := derivative_exact_on_polynomials_complex ζ hζ dc hE sc ρ hρ 2 order (by norm_num) ho richardsonTerms a 0 h0 hh N
+  refine ⟨d, hd, ?_⟩
+  intro derInit rich errs stepTable hpos y hy
+  have := hex errs stepTable hpos y hy
+  simpa [Nat.factorial] using this
 
 end Ndt
